@@ -392,9 +392,52 @@ func ruleProvenance(r *Run, rule string, k *vecKind) {
 		// dist = asymmetricDistance(tables, cv.Code), e = cv.Node
 		base := strings.TrimSuffix(elemC, ".Node")
 		ok := base != elemC && strings.Contains(distC, base+".Code")
+		if !ok && base != elemC {
+			// the table lookup written inline: an accumulator over m of table[m][e.Code[m]] under the square root
+			for _, term := range accumulatedTerms(s.Dist) {
+				if strings.Contains(c.S(term), base+".Code[") {
+					ok = true
+				}
+			}
+		}
 		r.Check(ok, rule, "ivfpq:score", site, "score is computed from the code of the same list entry whose node is admitted ("+base+")",
 			"score "+distC+" is not computed from the code of the admitted entry "+elemC)
 	}
+}
+
+// accumulatedTerms: v is f(…(acc)…) through conversions and calls with one argument chain, acc = φ(0, acc + t): the terms t.
+func accumulatedTerms(v ssa.Value) []ssa.Value {
+	for i := 0; i < 8; i++ {
+		switch x := v.(type) {
+		case *ssa.Convert:
+			v = x.X
+			continue
+		case *ssa.ChangeType:
+			v = x.X
+			continue
+		case *ssa.Call:
+			if len(x.Call.Args) == 1 && !x.Call.IsInvoke() {
+				v = x.Call.Args[0]
+				continue
+			}
+		}
+		break
+	}
+	ph, ok := v.(*ssa.Phi)
+	if !ok {
+		return nil
+	}
+	var out []ssa.Value
+	for _, e := range ph.Edges {
+		if bo, ok := e.(*ssa.BinOp); ok && bo.Op == token.ADD {
+			if bo.X == ssa.Value(ph) {
+				out = append(out, bo.Y)
+			} else if bo.Y == ssa.Value(ph) {
+				out = append(out, bo.X)
+			}
+		}
+	}
+	return out
 }
 
 // ruleHNSWCandidateLiterals: every candidate{id:X, distance:D} literal in the HNSW index code has
@@ -695,7 +738,9 @@ func ruleNodeLookup(r *Run, rule string, k *vecKind) {
 						if bo, ok := iff.Cond.(*ssa.BinOp); ok && bo.Op == token.EQL && (d.Succs[0] == b || d.Succs[0].Dominates(b)) {
 							l, rr := c.S(bo.X), c.S(bo.Y)
 							// the element may be a struct embedding the node (cv.Node) — compare on containment
-							idOf := func(s string) bool { return strings.HasPrefix(s, "get:id(") && strings.Contains(e, strings.TrimSuffix(strings.TrimPrefix(s, "get:id("), ")")) }
+							idOf := func(s string) bool {
+								return strings.HasPrefix(s, "get:id(") && strings.Contains(e, strings.TrimSuffix(strings.TrimPrefix(s, "get:id("), ")"))
+							}
 							if (idOf(l) && rr == want) || (idOf(rr) && l == want) {
 								okElem = true
 							}
